@@ -248,6 +248,22 @@ def fast_records_auto_taken(ctx, rule='A5f'):
                 any(c in list(ast.walk(lp.iter)) for c in calls_):
             stores += [st for st in ast.walk(lp) if isinstance(st, ast.Assign) and
                        isinstance(st.targets[0], ast.Subscript) and norm(st.targets[0].value) == record]
+    # the read-back returns a class-level record of what the *last* apply took by itself: it describes this step only
+    # when it is read right after this step's apply - every path from the start of the step to the read-back passes the
+    # apply call (a read-back on the cache-hit path returns the record of some other decode)
+    from ..cfg import build_cfg as _bc
+    cfg_ = _bc(fn)
+    rb = [n for n in cfg_.nodes if n.ast is not None and n.kind in ('stmt', 'for', 'test') and any(
+        isinstance(c, ast.Call) and call_name(c) in ({'get_taken_single_selection_choices'} | readers)
+        for e in ([n.ast.iter] if n.kind == 'for' else [n.ast]) for c in ast.walk(e))]
+    ap = guards.call_nodes(cfg_, 'get_for_apply_selection_choice')
+    heads = [n for n in cfg_.nodes if n.kind in ('for', 'test') and isinstance(n.stmt, (ast.While, ast.For)) and
+             any(cfg_.can_reach(n, r) for r in rb) and any(cfg_.can_reach(r, n) for r in rb)]
+    if rb and ap:
+        guards.check_passes(ctx, rule, fn, rb, ap, 'auto-taken-read-right-after-apply',
+                            'the automatically taken choices are read back only on paths that have just applied a '
+                            'choice in this step (the record is class-level: on a cache hit it belongs to another '
+                            'decode)', from_nodes=heads or None)
     ok = bool(calls_) and bool(stores)
     ctx.ob(rule, fkey(fn, rule, 'auto-taken-choices-recorded'), ok, fn.where,
            f'choices taken automatically by the graph are read back (get_taken_single_selection_choices) and written '
